@@ -76,9 +76,14 @@ end Ckt;
 model M1
   Real x = 7001;
 end M1;
+model Sub
+  parameter Real p = 1;
+  Real w = p * 2;
+end Sub;
 model M2
   Real x = 7002;
   Real y = 7003;
+  Sub s(p = 7004);
 end M2;
 model H
   replaceable model T = M1;
@@ -88,7 +93,16 @@ model G
   H h(redeclare model T = M2);
   Real k = 7004;
 end G;
-""", ["M1", "H", "G"]),
+model U
+  M2 m;
+  Real u = m.s.w;
+end U;
+""", ["G", "M2", "U", "H"]),
+    "assembled": ([
+        "package P\n  constant Real g = 7001;\n  model A\n    Real a = g * 7002;\n  end A;\nend P;\n",
+        "within P;\nmodel B\n  extends A;\n  Real b = a + 7003;\nend B;\n",
+        "within P;\nmodel C\n  B pb;\n  A pa;\n  Real c = pb.b + pa.a + 7004;\nend C;\n",
+    ], ["P.A", "P.B", "P.C"]),
     "imports": ("""
 package A
   model X
@@ -116,11 +130,17 @@ package P
 end P;
 """, ["P.M1", "P.M2", "A.X"]),
     "func": ("""
+function g
+  input Real a;
+  output Real b;
+algorithm
+  b := a + 1;
+end g;
 function f
   input Real a;
   output Real b;
 algorithm
-  b := a * 7001;
+  b := g(a) * 7001;
 end f;
 model F
   Real x;
@@ -141,7 +161,17 @@ _TPL = {}
 
 def tpl(lib):
     if lib not in _TPL:
-        t = parser.parse(LIBS[lib][0], bypass_cache=True)
+        src = LIBS[lib][0]
+        if isinstance(src, list):
+            # a library assembled from several files with Tree.extend, as the CLI and the CasADi API do
+            t = ast.Tree(name="ModelicaTree")
+            for txt in src:
+                part = parser.parse(txt, bypass_cache=True)
+                if part is None:
+                    raise ValueError("library file does not parse: " + lib)
+                t.extend(part)
+        else:
+            t = parser.parse(src, bypass_cache=True)
         if t is None:
             raise ValueError("library template does not parse: " + lib)
         _TPL[lib] = pickle.dumps(t)
